@@ -10,7 +10,13 @@ is read:
     insertion in every function); the check must give the same verdict as on the
     unchanged tree.  A third variant inserts a logging call at the start of every function, loop
     and if body (logging calls are total for the CFG and neutral for block-shape
-    rules).  A fourth variant renames every non-parameter local variable of
+    rules).  Nine more variants rewrite one construct each into an equivalent
+    spelling everywhere (jv/neutral.py: if/else swapped with the condition negated,
+    `a and b` guards split into nested ifs, ternaries expanded, chained assignments
+    split, `return f()` through a temporary, `with A, B` nested, `not in` as
+    `not (.. in ..)`, key + "." as an f-string, annotations added); the source
+    model's canonical form (srcmodel._Canon) makes them indistinguishable.
+    A last variant renames every non-parameter local variable of
     every function without nested scopes: there the check may also fail closed
     (exit 2, "anchor vanished") but must never report a violation
 The self-test never influences the verdict on /repo; if it fails, the run ends
@@ -31,6 +37,7 @@ import tempfile
 from concurrent.futures import ThreadPoolExecutor
 from typing import Dict, List, Optional, Tuple
 
+from .neutral import KINDS as NEUTRAL_KINDS
 from .report import VERIF_DIR
 from .srcmodel import repo_root
 
@@ -381,6 +388,8 @@ def _neutral(prop: str, kind: str, base_rc: int, base_lines: List[str]) -> dict:
                 tree = ast.fix_missing_locations(_LocalRenamer().visit(tree))
             if kind == "unparse+log":
                 tree = ast.fix_missing_locations(_LogInserter().visit(tree))
+            if kind in NEUTRAL_KINDS:
+                tree = ast.fix_missing_locations(NEUTRAL_KINDS[kind]().visit(tree))
             txt = ast.unparse(tree)
             compile(txt, p, "exec")
             with open(p, "w") as f:
@@ -408,7 +417,7 @@ def run_for_property(prop: str, ctx_rc: int = 0) -> dict:
     jobs = int(os.environ.get("JV_JOBS", "16"))
     with ThreadPoolExecutor(max_workers=jobs) as ex:
         mfut = [ex.submit(_mutant, prop, m) for m in muts] + [ex.submit(_seed_mutant, prop, s) for s in _seeded_for(prop)]
-        nfut = [ex.submit(_neutral, prop, k, base_rc, base_lines) for k in ("unparse", "unparse+pass", "unparse+log", "rename-locals")]
+        nfut = [ex.submit(_neutral, prop, k, base_rc, base_lines) for k in ("unparse", "unparse+pass", "unparse+log", "rename-locals") + tuple(NEUTRAL_KINDS)]
         mres = [f.result() for f in mfut]
         nres = [f.result() for f in nfut]
     summary = {
